@@ -93,12 +93,13 @@ Definition Sparse_aligned (W cols : list (list Z)) (chans : list Z) (unwhiten : 
            (r : trec) : Prop :=
   t_template r = map (sparse_col W cols chans unwhiten) sigma /\
   t_amplitude r = map ptp (t_template r).
-Definition Sparse_sorted (chans : list Z) (r : trec) : Prop :=
+(* (distinct as soon as the stored, used, signal-carrying channels of the row are distinct) *)
+Definition Sparse_sorted (cols : list (list Z)) (chans : list Z) (r : trec) : Prop :=
   nonincreasing (t_amplitude r) /\
   (exists j, (j < length (t_channels r))%nat /\ nth j (t_channels r) 0%nat = t_best r /\
              forall a, In a (t_amplitude r) -> a <= nth j (t_amplitude r) 0) /\
   (forall a0, hd_error (t_amplitude r) = Some a0 -> forall a, In a (t_amplitude r) -> a <= a0) /\
-  (NoDup (filter (fun c => negb (c =? -1)) chans) -> NoDup (t_channels r)).
+  (NoDup (map (chan_at chans) (kept_positions cols chans)) -> NoDup (t_channels r)).
 
 (* ---- boolean checkers (run on observed records by Corr.v) ------------------------------------------------ *)
 Fixpoint zl_eqb (a b : list Z) : bool :=
